@@ -2,7 +2,7 @@
    go/types on this run (Gen_FilterTables.v, Gen_FilterPreds.v). *)
 From Coq Require Import List ZArith Bool String Lia.
 From RG.Base Require Import Outcome.
-From RG.Filters Require Import FilterIR FilterAlgebra Predicates ExprFacts FileFacts ValueSources.
+From RG.Filters Require Import FilterIR FilterAlgebra Predicates ExprFacts FileFacts ValueSources LoaderState.
 From RGW Require Import Gen_FilterTables Gen_FilterPreds.
 Import ListNotations.
 Local Open Scope string_scope.
@@ -127,6 +127,11 @@ Definition ctor_of_path (p : string) : option ctor_info :=
 
 (* the import set File().Imports looks its argument up in is built by the audited loop (strconv.Unquote of every spec's path
    literal), set up once per file, assigned nowhere else; the closure is a plain lookup in it *)
+(* what the predicates' closures store beyond a call (regenerated from filters.go, utils.go, the methods of filterParams) is
+   the audited list: nothing carries an answer from one match to the next *)
+Lemma run_state_ok : run_state_okb gen_run_state = true.
+Proof. vm_compute. reflexivity. Qed.
+
 Lemma file_facts_ok : file_facts_okb gen_file_facts = true.
 Proof. vm_compute. reflexivity. Qed.
 
